@@ -502,3 +502,35 @@ Proof.
       replace (S base + k)%nat with (base + S k)%nat by lia. apply H. lia. }
   reflexivity.
 Qed.
+
+(** * 6. corollaries of [allpaths_correct]: exact membership, strictly ascending *)
+
+Lemma stored_words_members T h w :
+  In w (stored_words T h) <-> exists q, (length q <= h)%nat /\ stored T q = true /\ w = enc h q.
+Proof.
+  unfold stored_words, stored_nodes. rewrite in_map_iff. split.
+  - intros (q & <- & Hq). apply filter_In in Hq. exists q. rewrite <- all_nodes_length. tauto.
+  - intros (q & Hl & Hs & ->). exists q. split; [reflexivity|]. apply filter_In.
+    rewrite all_nodes_length. tauto.
+Qed.
+
+Lemma allpaths_members T from to l : 1 <= T < 2 ^ 31 -> 0 <= from < 2 ^ 64 -> 0 <= to < 2 ^ 64 ->
+  AllPaths T from to = Some l ->
+  forall w, In w l <->
+    from <= w < to /\
+    exists q, (length q <= Z.to_nat (Height T))%nat /\ stored T q = true /\ w = enc (Z.to_nat (Height T)) q.
+Proof.
+  intros HT Hf Ht E w. rewrite allpaths_correct in E by assumption. injection E as <-.
+  unfold spec_allpaths. rewrite filter_In, stored_words_members. unfold in_window.
+  rewrite andb_true_iff, Z.leb_le, Z.ltb_lt. tauto.
+Qed.
+
+Lemma allpaths_ascending T from to l : 1 <= T < 2 ^ 31 -> 0 <= from < 2 ^ 64 -> 0 <= to < 2 ^ 64 ->
+  AllPaths T from to = Some l -> sasc l /\ NoDup l.
+Proof.
+  intros HT Hf Ht E. rewrite allpaths_correct in E by assumption. injection E as <-.
+  pose proof (Height_range T HT).
+  assert (S : sasc (spec_allpaths T (Z.to_nat (Height T)) from to))
+    by (apply sasc_filter, stored_words_sasc; lia).
+  split; [exact S|apply sasc_NoDup, S].
+Qed.
